@@ -5,6 +5,7 @@ import (
 	"errors"
 	"fmt"
 	"io"
+	"io/ioutil"
 	"math"
 	"regexp"
 	"strconv"
@@ -391,10 +392,18 @@ func (s *state) walkChild(node parse.Node) error {
 		// extending template are available to the blocks of that template (and,
 		// the variables, to its ancestors).
 		return s.walk(node)
+	case *parse.IfNode, *parse.ForNode, *parse.DoNode:
+		// Control flow at the top level of an extending template is executed
+		// for its effects (assignments, calls, errors); whatever it would
+		// print is not rendered, like all content outside blocks.
+		out := s.out
+		s.out = ioutil.Discard
+		defer func() { s.out = out }()
+		return s.walk(node)
 	default:
-		// No need to handle other nodes. Apart from the above, this function only
-		// populates blocks from a referenced template (in a use statement) and
-		// does not actually execute anything.
+		// No need to handle other nodes: text, prints and includes only
+		// produce output, and blocks are rendered where the root template
+		// places them.
 	}
 	return nil
 }
